@@ -293,3 +293,7 @@ impl CssDimensionSet {
         }
     }
 }
+
+#[cfg(kani)]
+#[path = "/verif/kani/unitset.rs"]
+mod kani_verif;
